@@ -376,18 +376,18 @@ def linear_harnesses(tier, modes=("accessors", "forward", "inverse_of_forward"))
     """3x3 and larger cases rest on the ring back end (rational-function identities, Groebner reduction modulo the orthogonality relations of the stubs)"""
     hs = []
     for cname in ("LULinear", "NaiveLinear"):
-        for Dn in ((1, 2) if tier == "quick" else (1, 2, 3)):
+        for Dn in ((1, 2) if tier == "quick" else ((1, 2, 3, 4) if cname == "LULinear" else (1, 2, 3))):
             for mode in modes:
                 hs.append(linear_harness(cname, Dn, 0, mode))
     for cname in ("QRLinear", "SVDLinear", "Householder"):
         grid = ((1, 1), (2, 1), (2, 2)) if tier == "quick" else ((1, 1), (1, 2), (2, 1), (2, 2), (3, 2))
         if tier != "quick" and cname == "Householder":
-            grid = grid + ((3, 3), (4, 2))
+            grid = grid + ((3, 3), (4, 2), (5, 2))
         for Dn, K in grid:
             if cname == "SVDLinear" and K % 2:
                 continue          # SVDLinear asserts an even number of Householder transforms
             for mode in modes:
-                if mode == "inverse_of_forward" and (cname != "Householder" or (Dn, K) in ((3, 3), (4, 2))):
+                if mode == "inverse_of_forward" and (cname != "Householder" or (Dn, K) in ((3, 3), (4, 2), (5, 2))):
                     mode = "inverse"       # round trip = lemma over the contracts: forward-is-affine(W), inverse-is-affine-inverse(V), W V = I
                 hs.append(linear_harness(cname, Dn, K, mode))
     return hs
